@@ -1,0 +1,16 @@
+//go:build verif
+
+package websocket
+
+import "github.com/talostrading/sonic"
+
+// VerifAttach puts the given transport under the stream and marks the stream active, exactly as a
+// successful handshake would (and as the in-package tests do by hand through the unexported fields). It
+// exists only under the `verif` build tag so that an external monitor can drive a real Stream over a
+// scripted in-memory transport.
+func (s *Stream) VerifAttach(t sonic.Stream) error {
+	s.reset()
+	s.pendingFrames = s.pendingFrames[:0]
+	s.state = StateActive
+	return s.init(t)
+}
